@@ -204,3 +204,75 @@ pub fn component_main(
 pub fn b(x: bool) -> String {
     if x { "1".to_owned() } else { "0".to_owned() }
 }
+
+// ------------------------------------------------------------------------------------------------
+// body protocol: a stream that knows its exact remaining length, and a drain that checks the hints a body gives
+
+/// A byte stream over fixed chunks that reports its EXACT remaining length (as a file-backed stream does).
+pub struct ExactChunks {
+    chunks: std::collections::VecDeque<bytes::Bytes>,
+}
+
+impl ExactChunks {
+    #[must_use]
+    pub fn new(chunks: &[&'static [u8]]) -> Self {
+        Self { chunks: chunks.iter().map(|c| bytes::Bytes::from_static(c)).collect() }
+    }
+}
+
+impl futures::Stream for ExactChunks {
+    type Item = Result<bytes::Bytes, s3s::StdError>;
+    fn poll_next(mut self: std::pin::Pin<&mut Self>, _cx: &mut std::task::Context<'_>) -> std::task::Poll<Option<Self::Item>> {
+        std::task::Poll::Ready(self.chunks.pop_front().map(Ok))
+    }
+}
+
+impl s3s::stream::ByteStream for ExactChunks {
+    fn remaining_length(&self) -> s3s::stream::RemainingLength {
+        s3s::stream::RemainingLength::new_exact(self.chunks.iter().map(bytes::Bytes::len).sum())
+    }
+}
+
+/// Reads a body frame by frame the way an HTTP server does, and checks the hints it gives on the way (`http_body::Body`):
+/// once `is_end_stream()` is true no data frame may follow, and the data still to come lies within `size_hint()`.
+/// Returns the data and the list of inconsistencies (empty = protocol respected).
+pub async fn drain_checked<B>(body: &mut B) -> (Vec<u8>, Vec<String>)
+where
+    B: http_body::Body<Data = bytes::Bytes> + Unpin,
+{
+    use http_body_util::BodyExt;
+    let mut data: Vec<u8> = Vec::new();
+    // (offset, is_end_stream, lower, upper) before each poll
+    let mut hints: Vec<(usize, bool, u64, Option<u64>)> = Vec::new();
+    let mut bad: Vec<String> = Vec::new();
+    loop {
+        let h = body.size_hint();
+        hints.push((data.len(), body.is_end_stream(), h.lower(), h.upper()));
+        match body.frame().await {
+            None => break,
+            Some(Err(_)) => {
+                bad.push("body-error".to_owned());
+                break;
+            }
+            Some(Ok(f)) => {
+                if let Ok(d) = f.into_data() {
+                    data.extend_from_slice(&d);
+                }
+            }
+        }
+    }
+    let total = data.len();
+    for (off, end, lower, upper) in hints {
+        let rest = (total - off) as u64;
+        if end && rest > 0 {
+            bad.push(format!("is_end_stream-with-{rest}-bytes-to-come"));
+        }
+        if rest < lower || upper.is_some_and(|u| rest > u) {
+            bad.push(format!("size_hint-{lower}..{upper:?}-but-{rest}-to-come"));
+        }
+    }
+    bad.sort();
+    bad.dedup();
+    (data, bad)
+}
+
